@@ -59,6 +59,14 @@ CLAIMS = {
    text="Lean theorems decided over tables regenerated from the tree (crypt.h probe, readelf of the freshly linked .so): struct layout 32768/0,384,768,1280,2047,2048 with no padding, all public constants equal to the released header's, every released (symbol, version, default) triple still exported, released alias classes preserved, compat names alias their modern counterparts. A client compiled against the released <crypt.h> runs against the fresh and the released libcrypt.so.1; results are compared with each other and with the model.",
    note=TB + "Released facts (libxcrypt 4.4.33, Debian) are committed under /verif/ref; calling conventions and libc ABI are the toolchain's.",
    technique="Lean 4 proof (decide over generated ABI tables) + old-header client differential run", ref="DESIGN.md §6 C20"),
+ "C14": dict(
+   text="Lean theorems over an abstract heap with an arbitrary allocator answer: one crypt_ra call from any prior pair either leaves the pair untouched (no growth needed / allocation failed: NULL, ENOMEM) or makes *data a live block of *size = sizeof(struct crypt_data) bytes holding a fresh zeroed object; an undersized block with a truthful positive size is fully erased before realloc; the result of the grown call is the pure answer; at most one request is issued. Correspondence with a malloc/realloc/free ledger (-Wl,--wrap) over random histories of caller resets (NULL, valid, too small, negative size, larger), frees, succeeding/failing requests and injected allocation failures.",
+   note=TB + "realloc moving or not moving the block is abstracted (both count as 'set'); with a negative recorded size the library cannot know how much to erase, so the erase clause is stated for 0 < *size < sizeof.",
+   technique="Lean 4 proof (state machine with allocator oracle) + ledger correspondence over random histories", ref="DESIGN.md §6 C14"),
+ "C15": dict(
+   text="Lean theorems: every hashing call issues 0 or exactly 2 allocator/mapper requests (mmap + munmap, yescrypt family only), crypt_ra at most one; a failed crypt_ra request leaves pair, ledger and result as documented. Fault enumeration: for every call of a corpus covering all methods and entry points each single request position fails in turn; ledger balance, errno, result, scratch wipe and the behaviour of the next call are checked on the implementation and compared with the model.",
+   note=TB + "A failing munmap leaves a mapping the library no longer controls (reported as leak=1 by model and implementation alike, stated rather than excluded); the >=32 MiB huge-page retry and pairs of faults are not enumerated in the quick tier.",
+   technique="Lean 4 proof (partial) + exhaustive single-fault enumeration through --wrap", ref="DESIGN.md §6 C15"),
 }
 NOT_YET = "check under construction in this round; not claimed yet"
 
